@@ -184,8 +184,7 @@ class TokOb(EvalArm):
 
     def setup(self, ctx, prog, e, st, runner):
         ev = self.ev
-        entry = prog.resolve('<eval_%s::tokenizer::Tokenizer as Iterator>::next' % ev)
-        if entry is None: entry = prog.find_fn(r'eval_%s::tokenizer::<impl at [^>]*>::next$' % ev)
+        entry = prog.entry(ev, 'tok_next')
         chars = tuple(self.char_terms())
         self.tk_key = st.alloc(adt('eval_%s::tokenizer::Tokenizer' % ev, None, [('peek', chars, 0, None)]))
         leaves = [c for c in self.chars if isinstance(c, CharLeaf)]
